@@ -1405,6 +1405,21 @@ func (g *Gen) anchored(st *State, line, kind string) {
 				}
 				continue
 			}
+			if c.Kind == "cover-at" && kind == "assert-at" {
+				g.assertUse[c]++
+				if g.discovery {
+					continue
+				}
+				ctx := &specCtx{g: g, st: st, old: g.entry}
+				fnName := g.rootFn.RelString(g.rootFn.Pkg.Pkg)
+				pos := g.posStr(g.curPos)
+				site := fmt.Sprintf("%s/cover@%s", fnName, pos)
+				g.oblCount[site]++
+				g.obls = append(g.obls, &Obligation{Name: fmt.Sprintf("%s#%d", site, g.oblCount[site]), Clause: fnName + " :: " + c.ID, Kind: "cover", Pos: pos,
+					Src: g.W.sourceLine(g.curPos), Desc: "reachable with " + c.Src, Func: fnName, prefix: len(g.lines), pc: st.pc,
+					goal: "(not " + g.evalAssume(ctx, c.E) + ")", Cover: true})
+				continue
+			}
 			if c.Kind != kind {
 				continue
 			}
